@@ -73,6 +73,12 @@ def child_main(case):
             return tuple(items)
         if kind == "iter":
             return iter(items)
+        if kind == "deque":
+            import collections
+            return collections.deque(items)
+        if kind == "intseq":
+            from .sched.poolsim import IntSeq
+            return IntSeq(items)
         if kind == "keys":
             return dict.fromkeys(items).keys()
         if kind == "range":
